@@ -3,6 +3,7 @@ from __future__ import annotations
 from collections import defaultdict
 from typing import TypeVar, Callable
 from functools import reduce
+import sympy
 from sympy.printing.str import StrPrinter
 from structlog import get_logger
 
@@ -61,6 +62,14 @@ class BaseGotranODECodePrinter(StrPrinter):
 
     def _print_And(self, expr):
         return f"And({', '.join(self._print(a) for a in expr.args)})"
+
+    def _print_re(self, expr):
+        # All model quantities are real. (sympy introduces re and im when it cannot
+        # prove that, e.g. abs(exp(x**0.5)) becomes exp(re(x**0.5)))
+        return self._print(expr.args[0])
+
+    def _print_im(self, expr):
+        return self._print(sympy.S.Zero)
 
     def _print_Min(self, expr):
         # The grammar has no Min / Max (sympy.simplify can introduce them in conditions)
